@@ -53,6 +53,8 @@ def scratch(prefix="verif"):
 
 
 def cleanup():
+    if os.environ.get("VERIF_KEEP"):       # debugging aid: leave the scratch directories behind
+        return
     for d in _scratch:
         shutil.rmtree(d, ignore_errors=True)
     _scratch.clear()
